@@ -316,6 +316,68 @@ example : parseText parseScalars (Ariadne.Spec.GqlLexer.joinWith SchemaTextTable
 example : parseText parseScalars (Ariadne.Spec.GqlLexer.joinWith [] ["scalar A".toList, "scalar B".toList]) = none := by
   decide +kernel
 
+/-! ## 1c. Extension nodes -/
+
+/-- A node of the parsed document as `build_ast_schema` uses it: the definition of a named type, or an `extend` node
+    of it, with the members it contributes (fields, enum values, input fields; `μ` abstract). -/
+inductive DefNode (μ : Type) where
+  | base (name : String) (members : List μ)
+  | ext (name : String) (members : List μ)
+  deriving Repr, DecidableEq
+
+def DefNode.name {μ : Type} : DefNode μ → String
+  | .base n _ => n
+  | .ext n _ => n
+
+def DefNode.members {μ : Type} : DefNode μ → List μ
+  | .base _ ms => ms
+  | .ext _ ms => ms
+
+/-- the members type `n` has in the built schema: those of its definition and of EVERY extension node of that name,
+    wherever in the document they stand (graphql-core `extend_schema_impl`: `type_extensions_map[name]`) -/
+def membersOf {μ : Type} (ds : List (DefNode μ)) (n : String) : List μ :=
+  (ds.filter (fun d => d.name == n)).flatMap DefNode.members
+
+theorem membersOf_perm {μ : Type} {d₁ d₂ : List (DefNode μ)} (h : d₁.Perm d₂) (n : String) :
+    (membersOf d₁ n).Perm (membersOf d₂ n) :=
+  (h.filter _).flatMap_right _
+
+/-- **split_invariant_extensions**: definitions AND `extend` nodes may be distributed over the files and
+    sub-directories in any way (an extension in another file than, or before, the type it extends): the directory
+    loads, and every type has the same members as from the single file. -/
+theorem split_invariant_extensions {μ : Type} (ds : List (DefNode μ)) (kids : List (Tree (DefNode μ)))
+    (hs : IsSplit kids ds) :
+    ∃ ds', load (.dir kids) = .ok ds' ∧ ∀ n, (membersOf ds' n).Perm (membersOf ds n) := by
+  obtain ⟨_, ds', hl, hp⟩ := split_invariant (DefNode μ) ds kids hs
+  exact ⟨ds', hl, fun n => membersOf_perm hp n⟩
+
+/-- what the document must NOT be reduced to: keeping the first node per name (a "de-duplication" of definitions)
+    discards every extension node -/
+def keepFirstByName {μ : Type} : List (DefNode μ) → List String → List (DefNode μ)
+  | [], _ => []
+  | d :: ds, seen => if seen.contains d.name then keepFirstByName ds seen else d :: keepFirstByName ds (d.name :: seen)
+
+theorem keeping_first_by_name_loses_extension_members :
+    membersOf [DefNode.base "T" [1], .ext "T" [2]] "T" = [1, 2] ∧
+    membersOf (keepFirstByName [DefNode.base "T" [1], .ext "T" [2]] []) "T" = [1] := by
+  constructor <;> decide +kernel
+
+/-- non-vacuity: the extension in a dot-directory, sorted before the file that defines the type -/
+example : IsSplit [.dir ".ext" [.file "a.graphql" (some [DefNode.ext "T" [2]])], .file "t.gql" (some [DefNode.base "T" [1], .base "E" [7]])]
+    [DefNode.base "T" [1], .ext "T" [2], .base "E" [7]] := by
+  refine ⟨?_, ?_⟩
+  · intro e he
+    have hall : (walk [.dir ".ext" [.file "a.graphql" (some [DefNode.ext "T" [2]])], .file "t.gql" (some [DefNode.base "T" [1], .base "E" [7]])]).all
+        (fun e => match e.item with | .file (some _) => true | _ => false) = true := by decide +kernel
+    have h := List.all_eq_true.mp hall e he
+    unfold Readable
+    rcases hi : e.item with _ | c
+    · simp [hi] at h
+    · cases c with
+      | none => simp [hi] at h
+      | some ds => exact ⟨ds, rfl⟩
+  · decide +kernel
+
 /-! ## 2. Introspection failures -/
 
 def isErr {ε α : Type} : Except ε α → Bool
